@@ -44,7 +44,7 @@ def check(model, R, tier):
                     'axis-genericity of softmax kernels, forward/backward agreement of the batch-norm mode predicate, pooling geometry/permutation pairing. '
                     'It does NOT decide the numerical correctness of any closed form.',
         assumptions=['NumPy API roles as frozen in sa/domains', 'dependence table in sa/rules_kernel.py (confirmed by reading)'],
-        technique='ast op-template extraction + abstract interpretation (linearity, must-dependence) + boolean truth-table comparison')
+        technique='op-template extraction + abstract interpretation (linearity, must-dependence) + term differentiation (polynomial and exp/log normal forms) + partial evaluation (flag valuations; batch-norm kernels under all mode valuations)')
 
 
 # ---------------------------------------------------------------------------------------- batch-norm mode predicates
